@@ -14,6 +14,8 @@ package restful
 //@ trusted A-VERB: customVerbReg matches iff the token ends in ':' + letters (validated in the thorough tier)
 //@ ensures result == hasVerb(routeToken)
 //@ nopanic
+//@ opt bounded
+//@ opt pool.routeToken ["", "a", ":go", "x:go", "{id}:go", "{id}:start", "x:", ":", "a:b:c", "x:Go1", "{v:*}", "{v}.x"]
 
 //@ func isMatchCustomVerb
 //@ props C01 C02 C03 C04
@@ -21,6 +23,9 @@ package restful
 //@ ensures result == (hasVerb(routeToken) && strings.HasSuffix(pathToken, ":"+verbOf(routeToken)))
 //@ ensures result ==> hasVerb(pathToken) && stemOf(pathToken) == pathToken[:len(pathToken)-len(verbOf(routeToken))-1]
 //@ nopanic
+//@ opt bounded
+//@ opt pool.routeToken ["", "a", ":go", "x:go", "{id}:go", "{id}:start", "x:", ":", "a:b:c", "x:Go1", "{v:*}", "{v}.x"]
+//@ opt pool.pathToken ["", "go", ":go", "x:go", "42:go", "restart", "start", "42:start", "kickstart", "x:gogo", "x:go:go", "go:x"]
 
 //@ func removeCustomVerb
 //@ props C01 C02 C03 C04
@@ -28,6 +33,8 @@ package restful
 //@ ensures hasVerb(str) ==> result == stemOf(str)
 //@ ensures !hasVerb(str) ==> result == str
 //@ nopanic
+//@ opt bounded
+//@ opt pool.str ["", "a", ":go", "x:go", "{id}:go", "42:start", "x:", ":", "a:b:c", "x:Go1", "x:go:go"]
 
 // ---------------------------------------------------------------------------
 // CurlyRouter
@@ -919,3 +926,43 @@ package restful
 //@ modifies nothing
 //@ opt opaque model_splitPart model_splitCount model_strings_Trim
 //@ loop 0 invariant owned: sorted == nil || fresh(sorted)
+
+// ---------------------------------------------------------------------------
+// http middleware adapter (C06)
+
+//@ func iface:http.Handler.ServeHTTP
+//@ props C06 C07 C10
+//@ trusted A-CB: an unknown http.Handler is a callback (it may write headers and the response, call back into the chain, or panic)
+//@ modifies headers, ghost $trace
+
+// next: rebinds the pair to what the middleware passed on, then continues the chain exactly once
+//@ func HttpMiddlewareHandlerToFilter$1$1
+//@ props C06
+//@ requires req != nil && resp != nil && chainOK(chain)
+//@ callsite (*FilterChain).ProcessFilter rebound: arg0 == chain && arg1 == req && arg2 == resp && req.Request == r && same(resp.ResponseWriter, rw)
+//@ modifies req.Request, resp.ResponseWriter, chain.Index, cb(chain), cb(req), cb(resp), headers, ghost $trace
+
+// ---------------------------------------------------------------------------
+// CompressingResponseWriter forwards status and headers to the writer it wraps (C07, C15)
+
+//@ func (*CompressingResponseWriter).WriteHeader
+//@ props C07 C15
+//@ requires c != nil && c.writer != nil
+//@ modifies ghost $g.wstatus, ghost $g.whcalls
+//@ ensures forwarded: statusReceived(c.writer) == status && writeHeaderCalls(c.writer) == old(writeHeaderCalls(c.writer)) + 1
+//@ nopanic
+
+//@ func (*CompressingResponseWriter).Header
+//@ props C07 C15
+//@ requires c != nil && c.writer != nil
+//@ ensures same(result, hdrOf(c.writer))
+//@ modifies nothing
+//@ nopanic
+
+//@ func (*CompressingResponseWriter).Write
+//@ props C07 C13 C15
+//@ requires c != nil
+//@ modifies ghost $g.accepted, ghost $g.lasterr, ghost $g.wcalls
+//@ ensures closed: c.compressor == nil ==> result0 == -1 && result1 != nil && writeCalls(c.writer) == old(writeCalls(c.writer))
+//@ ensures open: c.compressor != nil ==> 0 <= result0 && result0 <= len(bytes) && (result1 == nil ==> result0 == len(bytes))
+//@ nopanic
